@@ -7,6 +7,9 @@
 //!                             observed instead of suffered; the steps of a `case … seq` run in one child
 //!                             (`seqchild` mode) that lives as long as the case
 //!   child <fn> <cls> <seed>   one in-contract call, prints `ret <same|diff|-> code=<c> msg=<0|1> cleared=<c>`
+//!                             (after `sourmash_init`; classes ending in `_noinit`: without it).  Classes
+//!                             `[<param>_]long_<kind>_<len>` put 255..1000 bytes of ASCII / 2- / 3- / 4-byte
+//!                             characters into one text parameter (see LONG_PARAMS)
 //!   seqchild                  reads step names on stdin, prints the last error code after each step
 //!   dump                      `kind <Variant> <code>` for one constructed value of every SourmashError
 //!                             variant and `scenario <fn> <cls>` for every call scenario (translator input)
@@ -97,8 +100,137 @@ fn with_suffix(cls: &[&str], suf: &str) -> Vec<String> {
     cls.iter().map(|c| format!("{}_{}", c, suf)).collect()
 }
 
+// ---- long text: every string / byte-buffer parameter at 255 / 256 / 257 / 300 / 1000 bytes ------------------
+/// what the bytes are: `a` ASCII (valid for the parameter's domain: DNA, residues, path characters);
+/// `u2` / `u3` / `u4` whole 2- / 3- / 4-byte UTF-8 characters (U+00E9, U+4E2D, U+1F600); `…o` the same
+/// after ONE leading ASCII byte, so that every fixed byte position falls inside a character for at least
+/// one of the two phases.  Always valid UTF-8 and exactly the stated number of bytes (ASCII padding).
+const LONG_KINDS: &[&str] = &["a", "u2", "u2o", "u3", "u3o", "u4", "u4o"];
+const LONG_LENS: &[usize] = &[255, 256, 257, 300, 1000];
+/// lengths that are also run WITHOUT `sourmash_init` (default panic hook): class suffix `_noinit`
+const LONG_LENS_NOINIT: &[usize] = LONG_LENS;
+/// (function, parameter prefix of the class name) for every parameter that carries text or bytes
+const LONG_PARAMS: &[(&str, &str)] = &[
+    ("hash_murmur", ""),
+    ("sourmash_translate_codon", ""),
+    ("sourmash_str_from_cstr", ""),
+    ("hll_add_sequence", ""),
+    ("hll_from_buffer", ""),
+    ("hll_from_path", ""),
+    ("hll_from_path", "missing_"),
+    ("hll_save", ""),
+    ("kmerminhash_add_sequence", ""),
+    ("kmerminhash_add_protein", ""),
+    ("kmerminhash_add_word", ""),
+    ("kmerminhash_seq_to_hashes", ""),
+    ("nodegraph_count_kmer", ""),
+    ("nodegraph_get_kmer", ""),
+    ("nodegraph_from_buffer", ""),
+    ("nodegraph_from_path", ""),
+    ("nodegraph_from_path", "missing_"),
+    ("nodegraph_save", ""),
+    ("signature_add_sequence", ""),
+    ("signature_add_protein", ""),
+    ("signature_set_name", ""),
+    ("signature_set_filename", ""),
+    ("signatures_load_buffer", ""),
+    ("signatures_load_buffer", "moltype_"),
+    ("signatures_load_path", ""),
+    ("signatures_load_path", "missing_"),
+    ("signatures_load_path", "moltype_"),
+    ("zipstorage_new", ""),
+    ("zipstorage_new", "missing_"),
+    ("zipstorage_load", ""),
+    ("zipstorage_set_subdir", ""),
+    ("revindex_new_with_paths", ""),
+    ("revindex_new_with_paths", "missing_"),
+];
+/// `[<prefix>_]long_<kind>_<len>[_noinit]` -> (prefix with its underscore, kind, len)
+fn long_cls(cls: &str) -> Option<(&str, &str, usize)> {
+    let c = cls.strip_suffix("_noinit").unwrap_or(cls);
+    let at = c.find("long_")?;
+    if at > 0 && !c[..at].ends_with('_') {
+        return None;
+    }
+    let mut it = c[at + 5..].split('_');
+    let kind = it.next()?;
+    let len: usize = it.next()?.parse().ok()?;
+    if it.next().is_some() || !LONG_KINDS.contains(&kind) {
+        return None;
+    }
+    Some((&c[..at], kind, len))
+}
+/// is `cls` the long class of the parameter with this prefix ("" = the function's only / first text parameter)
+fn is_long(cls: &str, prefix: &str) -> bool {
+    long_cls(cls).map(|(p, _, _)| p == prefix).unwrap_or(false)
+}
+/// the bytes of a long class; `ascii` supplies the ASCII bytes (cycled): the whole text for kind `a`,
+/// the leading byte and the padding otherwise
+fn long_text(cls: &str, ascii: &[u8]) -> Vec<u8> {
+    let (_, kind, len) = long_cls(cls).expect("long class");
+    let ch: &[u8] = match &kind[..2.min(kind.len())] {
+        "u2" => "\u{e9}".as_bytes(),
+        "u3" => "\u{4e2d}".as_bytes(),
+        "u4" => "\u{1f600}".as_bytes(),
+        _ => &[],
+    };
+    let fill = |i: usize| ascii[i % ascii.len()];
+    let mut v: Vec<u8> = Vec::with_capacity(len);
+    if ch.is_empty() {
+        return (0..len).map(fill).collect();
+    }
+    if kind.ends_with('o') {
+        v.push(fill(0));
+    }
+    while v.len() + ch.len() <= len {
+        v.extend_from_slice(ch);
+    }
+    while v.len() < len {
+        v.push(fill(v.len()));
+    }
+    v
+}
+/// a path under `dir`: the text of the long class cut into components of at most 120 bytes at character
+/// boundaries (every component a legal file name), the last one followed by `ext`; directories are created
+fn long_path(dir: &std::path::Path, cls: &str, ext: &str) -> std::path::PathBuf {
+    let t = String::from_utf8(long_text(cls, b"p")).unwrap();
+    let mut comps: Vec<String> = vec![String::new()];
+    for ch in t.chars() {
+        if comps.last().unwrap().len() + ch.len_utf8() > 120 {
+            comps.push(String::new());
+        }
+        comps.last_mut().unwrap().push(ch);
+    }
+    let last = comps.pop().unwrap();
+    let mut p = dir.to_path_buf();
+    for c in comps {
+        p.push(c);
+    }
+    std::fs::create_dir_all(&p).unwrap();
+    p.push(format!("{}{}", last, ext));
+    p
+}
+fn long_classes() -> Vec<(String, String)> {
+    let mut v = vec![];
+    for (f, pre) in LONG_PARAMS {
+        for noinit in [false, true] {
+            for k in LONG_KINDS {
+                for l in if noinit { LONG_LENS_NOINIT } else { LONG_LENS } {
+                    v.push((f.to_string(), format!("{}long_{}_{}{}", pre, k, l, if noinit { "_noinit" } else { "" })));
+                }
+            }
+        }
+    }
+    v
+}
+
 fn scenarios() -> Vec<(String, String, bool)> {
     let mut v = scenarios_base();
+    for (f, c) in long_classes() {
+        // count_kmer / get_kmer have no native counterpart to compare with
+        let cmp = !f.ends_with("_kmer");
+        v.push((f, c, cmp));
+    }
     let mut addv = |f: &str, cls: Vec<String>, cmp: bool| {
         for c in cls {
             v.push((f.to_string(), c, cmp));
@@ -416,8 +548,9 @@ const SEQ_FAIL: &[&str] = &[
     "ng_from_buffer_empty",
     "add_seq_hi_invalid",
     "hll_save_bad_utf8_path",
+    "ng_from_path_missing_long",
 ];
-const SEQ_PANIC: &[&str] = &["get_abunds_no_track", "hll_update_mh_default", "load_sigs_bad_moltype", "ng_from_buffer_garbage"];
+const SEQ_PANIC: &[&str] = &["get_abunds_no_track", "hll_update_mh_default", "load_sigs_bad_moltype", "ng_from_buffer_garbage", "load_sigs_long_moltype", "load_path_long_moltype"];
 const SEQ_OK: &[&str] = &[
     "ok_add_hash",
     "ok_merge",
@@ -434,6 +567,7 @@ const SEQ_OK: &[&str] = &[
     "ok_aa_class_hi",
     "ok_add_protein_hi",
     "ok_set_name_hi",
+    "ok_set_name_long",
 ];
 const SEQ_QUERY: &[&str] = &["code", "msg", "backtrace"];
 
@@ -505,8 +639,26 @@ fn gen(a: &Args) {
     let reps = if thorough { 12 } else { 2 };
     let sc = scenarios();
     let mut cur = String::new();
+    // long text classes: nothing random in them beyond the ASCII letters; one case per (function, parameter, hook)
     for (f, cls, cmp) in &sc {
+        let Some((pre, kind, _)) = long_cls(cls) else { continue };
         if in_corpus_only(f, cls) {
+            continue;
+        }
+        let key = format!("{} {}{}", f, pre, if cls.ends_with("_noinit") { "noinit" } else { "init" });
+        if key != cur {
+            o.case(&format!("call-long {}", key));
+            cur = key;
+        }
+        let _ = kind;
+        for i in 0..(if thorough { 2 } else { 1 }) {
+            let seed = if i == 0 { 0 } else { r.bits(32) };
+            o.op(&format!("call {} {} {} {}", f, cls, if *cmp { "cmp" } else { "nocmp" }, seed));
+        }
+    }
+    cur = String::new();
+    for (f, cls, cmp) in &sc {
+        if in_corpus_only(f, cls) || long_cls(cls).is_some() {
             continue;
         }
         if *f != cur {
@@ -1078,6 +1230,43 @@ unsafe fn seq_step(name: &str) -> Option<String> {
                 kmerminhash_free(x);
             }
         }
+        // ---- long text: panic / error messages that echo several hundred bytes of caller text, long names
+        "load_sigs_long_moltype" | "load_path_long_moltype" => {
+            // unknown molecule types of 700 / 701 bytes (2-byte characters from offset 0 / 1) and of 3- and 4-byte characters
+            for mol in ["\u{e9}".repeat(350), format!("x{}", "\u{e9}".repeat(350)), "\u{4e2d}".repeat(120), format!("x{}", "\u{1f600}".repeat(90))] {
+                let mol = cs(&mol);
+                let mut n = 0usize;
+                let p = if name.starts_with("load_sigs") {
+                    signatures_load_buffer(b"[]".as_ptr() as *const c_char, 2, false, 0, mol.as_ptr(), &mut n)
+                } else {
+                    let path = cs(&format!("{}/47.fa.sig", TD));
+                    signatures_load_path(path.as_ptr(), false, 0, mol.as_ptr(), &mut n)
+                };
+                if !p.is_null() {
+                    for s in take_slice(p as *const SIG, n) {
+                        signature_free(s);
+                    }
+                }
+            }
+        }
+        "ng_from_path_missing_long" => {
+            let p = cs(&format!("/verif/.cache/run/c20-no-such-dir/{}/{}.ng", "\u{e9}".repeat(100), "\u{4e2d}".repeat(70)));
+            let g = nodegraph_from_path(p.as_ptr());
+            if !g.is_null() {
+                nodegraph_free(g);
+            }
+        }
+        "ok_set_name_long" => {
+            let s = signature_new();
+            for t in ["g\u{e9}nome ".repeat(40), "\u{1f600}".repeat(300)] {
+                let c = cs(&t);
+                signature_set_name(s, c.as_ptr());
+                signature_set_filename(s, c.as_ptr());
+                str_take(signature_get_name(s));
+                str_take(signature_save_json(s));
+            }
+            signature_free(s);
+        }
         "ok_set_name_hi" => {
             let s = signature_new();
             let c = csb("g\u{e9}nome \u{4e2d}".as_bytes());
@@ -1302,6 +1491,7 @@ unsafe fn call_misc(f: &str, cls: &str, r: &mut Rng) -> Option<Cmp> {
                 "len1" => dna(r, 1),
                 "large" => dna(r, 100_000),
                 _ if byte_pat(cls).is_some() => splice(dna(r, 21), cls),
+                _ if is_long(cls, "") => long_text(cls, &dna(r, 64)),
                 _ => return Some(Cmp::Unknown),
             };
             let seed = r.bits(64);
@@ -1358,6 +1548,7 @@ unsafe fn call_misc(f: &str, cls: &str, r: &mut Rng) -> Option<Cmp> {
                 "lower3" => b"acg".to_vec(),
                 "hi5" => vec![0x80, 0x81, 0xfe, 0xff, 0xc3],
                 "large" => dna(r, 10_000),
+                _ if is_long(cls, "") => long_text(cls, &dna(r, 64)),
                 _ => return Some(Cmp::Unknown),
             };
             let want = nat_ok(|| translate_codon(&k));
@@ -1413,6 +1604,7 @@ unsafe fn call_misc(f: &str, cls: &str, r: &mut Rng) -> Option<Cmp> {
                 "len1" => dna(r, 1),
                 "large" => dna(r, 100_000),
                 "utf8" | "b7f" | "b80" => splice(dna(r, 12), cls),
+                _ if is_long(cls, "") => long_text(cls, &dna(r, 64)),
                 _ => return Some(Cmp::Unknown),
             };
             let cb = csb(&b);
@@ -1590,6 +1782,7 @@ unsafe fn call_hll(f: &str, cls: &str, r: &mut Rng) -> Option<Cmp> {
                 "large" => (dna(r, 200_000), false),
                 "lowercase" => (dna(r, 120).to_ascii_lowercase(), false),
                 _ if byte_pat(cls).is_some() => (splice(dna(r, 120), cls), cls.ends_with("_force")),
+                _ if is_long(cls, "") => (long_text(cls, &dna(r, 1000)), false),
                 "invalid" | "invalid_force" => {
                     let mut s = dna(r, 120);
                     s[60] = b'N';
@@ -1680,6 +1873,14 @@ unsafe fn call_hll(f: &str, cls: &str, r: &mut Rng) -> Option<Cmp> {
                         p = td.path().join(if cls == "utf8" { "x\u{e9}\u{4e2d}.hll" } else { "x\u{7f}.hll" }).into_os_string().into_encoded_bytes();
                         std::fs::write(std::str::from_utf8(&p).unwrap(), &raw).unwrap()
                     }
+                    _ if is_long(cls, "") || is_long(cls, "missing_") => {
+                        // a valid file at the end of a long path / the same path with nothing there
+                        let q = long_path(td.path(), cls, ".hll");
+                        if is_long(cls, "") {
+                            std::fs::write(&q, &raw).unwrap();
+                        }
+                        p = q.into_os_string().into_encoded_bytes();
+                    }
                     _ => return Some(Cmp::Unknown),
                 }
                 let cp = csb(&p);
@@ -1701,12 +1902,15 @@ unsafe fn call_hll(f: &str, cls: &str, r: &mut Rng) -> Option<Cmp> {
                     "nul_bytes" => vec![0u8; 300],
                     "len1" => vec![b'H'],
                     "len1_hi" => vec![0xff],
+                    // text where a serialized sketch is expected
+                    _ if is_long(cls, "") => long_text(cls, b"HLL"),
                     _ => return Some(Cmp::Unknown),
                 };
                 let p = if b.is_empty() { dangling::<c_char>() } else { b.as_ptr() as *const c_char };
                 hll_from_buffer(p, b.len())
             };
-            let ok = if ["valid", "gz", "utf8", "b7f"].contains(&cls) { !h.is_null() && hll_same(h, &n) } else { h.is_null() };
+            let good = ["valid", "gz", "utf8", "b7f"].contains(&cls) || (f == "hll_from_path" && is_long(cls, ""));
+            let ok = if good { !h.is_null() && hll_same(h, &n) } else { h.is_null() };
             hll_free(h);
             c(ok)
         }
@@ -1718,6 +1922,7 @@ unsafe fn call_hll(f: &str, cls: &str, r: &mut Rng) -> Option<Cmp> {
                     "missing_dir" => td.path().join("no/such/dir/x.hll"),
                     "utf8" => td.path().join("x\u{e9}\u{4e2d}.hll"),
                     "b7f" => td.path().join("x\u{7f}.hll"),
+                    _ if is_long(cls, "") => long_path(td.path(), cls, ".hll"),
                     _ => td.path().join("x.hll"),
                 };
                 let mut pb = path.clone().into_os_string().into_encoded_bytes();
@@ -1829,6 +2034,7 @@ unsafe fn call_mh(f: &str, cls: &str, r: &mut Rng) -> Option<Cmp> {
                 "large" => (dna(r, 20_000), false),
                 "lowercase" => (dna(r, 150).to_ascii_lowercase(), false),
                 _ if byte_pat(cls).is_some() => (splice(dna(r, 150), cls), cls.ends_with("_force")),
+                _ if is_long(cls, "") => (long_text(cls, &dna(r, 1000)), false),
                 "invalid" | "invalid_force" => {
                     let mut s = dna(r, 150);
                     s[75] = b'N';
@@ -1872,6 +2078,7 @@ unsafe fn call_mh(f: &str, cls: &str, r: &mut Rng) -> Option<Cmp> {
                 "lowercase" => prot(r, 60).to_ascii_lowercase(),
                 "stop" => splice(prot(r, 60), "x").iter().enumerate().map(|(i, b)| if i % 9 == 4 { b'*' } else { *b }).collect(),
                 _ if byte_pat(cls).is_some() => splice(prot(r, 60), cls),
+                _ if is_long(cls, "") => long_text(cls, &prot(r, 1000)),
                 "short" => prot(r, 3),
                 "empty" => vec![],
                 "non_aa" => b"ZZZZ####1234zzzzBBBBJJJJOOOOUUUU".to_vec(),
@@ -1914,6 +2121,7 @@ unsafe fn call_mh(f: &str, cls: &str, r: &mut Rng) -> Option<Cmp> {
                     (splice(prot(r, 40), cls), false, false, true)
                 }
                 _ if byte_pat(cls).is_some() => (splice(dna(r, 100), cls), cls.ends_with("_force"), false, false),
+                _ if is_long(cls, "") => (long_text(cls, &dna(r, 1000)), false, false, false),
                 // boundary sizes around the k-mer length (21 bases / 7 residues)
                 "k_minus_1" => (dna(r, 20), false, false, false),
                 "exactly_k" => (dna(r, 21), false, false, false),
@@ -2024,6 +2232,7 @@ unsafe fn call_mh(f: &str, cls: &str, r: &mut Rng) -> Option<Cmp> {
                 "len1" => dna(r, 1),
                 "large" => dna(r, 100_000),
                 _ if byte_pat(cls).is_some() => splice(dna(r, 21), cls),
+                _ if is_long(cls, "") => long_text(cls, &dna(r, 64)),
                 "empty" => vec![],
                 "non_acgt" => b"NNNN#xyz".to_vec(),
                 _ => return Some(Cmp::Unknown),
@@ -2400,6 +2609,7 @@ unsafe fn call_ng(f: &str, cls: &str, r: &mut Rng) -> Option<Cmp> {
                 "long" => dna(r, 40),
                 "utf8" => vec![b'A', 0xc3, 0xa9],
                 _ if byte_pat(cls).is_some() => splice(dna(r, 3), cls),
+                _ if is_long(cls, "") => long_text(cls, &dna(r, 64)),
                 _ => return Some(Cmp::Unknown),
             };
             let ck = csb(&kmer);
@@ -2478,7 +2688,7 @@ unsafe fn call_ng(f: &str, cls: &str, r: &mut Rng) -> Option<Cmp> {
             let (g0, n) = ng_pair("valid", &hs);
             let raw = ng_bytes(&n);
             let td = tmpdir();
-            let mut expect: Option<Nodegraph> = if ["valid", "gz", "utf8", "b7f"].contains(&cls) { Some(n) } else { None };
+            let mut expect: Option<Nodegraph> = if ["valid", "gz", "utf8", "b7f"].contains(&cls) || (f == "nodegraph_from_path" && is_long(cls, "")) { Some(n) } else { None };
             let g = if f == "nodegraph_from_path" {
                 let mut p = td.path().join("x.ng").into_os_string().into_encoded_bytes();
                 match cls {
@@ -2490,6 +2700,13 @@ unsafe fn call_ng(f: &str, cls: &str, r: &mut Rng) -> Option<Cmp> {
                     "utf8" | "b7f" => {
                         p = td.path().join(if cls == "utf8" { "x\u{e9}\u{4e2d}.ng" } else { "x\u{7f}.ng" }).into_os_string().into_encoded_bytes();
                         std::fs::write(std::str::from_utf8(&p).unwrap(), &raw).unwrap()
+                    }
+                    _ if is_long(cls, "") || is_long(cls, "missing_") => {
+                        let q = long_path(td.path(), cls, ".ng");
+                        if is_long(cls, "") {
+                            std::fs::write(&q, &raw).unwrap();
+                        }
+                        p = q.into_os_string().into_encoded_bytes();
                     }
                     _ => return Some(Cmp::Unknown),
                 }
@@ -2515,6 +2732,7 @@ unsafe fn call_ng(f: &str, cls: &str, r: &mut Rng) -> Option<Cmp> {
                         expect = Some(Nodegraph::from_reader(&b[..]).unwrap());
                         b
                     }
+                    _ if is_long(cls, "") => long_text(cls, b"OXLI"),
                     _ => return Some(Cmp::Unknown),
                 };
                 let p = if b.is_empty() { dangling::<c_char>() } else { b.as_ptr() as *const c_char };
@@ -2536,6 +2754,7 @@ unsafe fn call_ng(f: &str, cls: &str, r: &mut Rng) -> Option<Cmp> {
                     "missing_dir" => td.path().join("no/such/dir/x.ng"),
                     "utf8" => td.path().join("x\u{e9}\u{4e2d}.ng"),
                     "b7f" => td.path().join("x\u{7f}.ng"),
+                    _ if is_long(cls, "") => long_path(td.path(), cls, ".ng"),
                     _ => td.path().join("x.ng"),
                 };
                 let mut pb = path.clone().into_os_string().into_encoded_bytes();
@@ -2707,6 +2926,7 @@ unsafe fn call_sig(f: &str, cls: &str, r: &mut Rng) -> Option<Cmp> {
                     "short" => prot(r, 2),
                     "large" => prot(r, 30_000),
                     _ if byte_pat(cls).is_some() => splice(prot(r, 80), cls),
+                    _ if is_long(cls, "") => long_text(cls, &prot(r, 1000)),
                     _ => prot(r, 80),
                 }
             } else {
@@ -2714,6 +2934,7 @@ unsafe fn call_sig(f: &str, cls: &str, r: &mut Rng) -> Option<Cmp> {
                     "large" => dna(r, 100_000),
                     "len1" => dna(r, 1),
                     _ if byte_pat(cls).is_some() => splice(dna(r, 200), cls),
+                    _ if is_long(cls, "") => long_text(cls, &dna(r, 1000)),
                     "invalid" | "invalid_force" => {
                         let mut q = dna(r, 200);
                         q[100] = b'N';
@@ -2749,6 +2970,7 @@ unsafe fn call_sig(f: &str, cls: &str, r: &mut Rng) -> Option<Cmp> {
                 "len1" => dna(r, 1),
                 "large" => dna(r, 100_000),
                 "utf8" | "b7f" | "b80" | "bff" => splice(dna(r, 10), cls),
+                _ if is_long(cls, "") => long_text(cls, b"genome name "),
                 _ => return Some(Cmp::Unknown),
             };
             let cv = csb(&v);
@@ -2916,6 +3138,25 @@ unsafe fn call_sig(f: &str, cls: &str, r: &mut Rng) -> Option<Cmp> {
                     path = q.into_os_string().into_encoded_bytes();
                 }
                 "moltype_utf8" => mol = Some("prot\u{e9}ine".as_bytes().to_vec()),
+                // an unknown molecule type of 255 .. 1000 bytes (echoed by the panic message)
+                _ if is_long(cls, "moltype_") => mol = Some(long_text(cls, b"rna")),
+                // the same file at the end of a long path / nothing at that path
+                _ if by_path && (is_long(cls, "") || is_long(cls, "missing_")) => {
+                    let q = long_path(td.path(), cls, ".sig");
+                    if is_long(cls, "") {
+                        std::fs::copy(std::str::from_utf8(&path).unwrap(), &q).unwrap();
+                    }
+                    path = q.into_os_string().into_encoded_bytes();
+                }
+                // a serialized signature whose name and filename are long
+                _ if !by_path && is_long(cls, "") => {
+                    let t = String::from_utf8(long_text(cls, b"genome name ")).unwrap();
+                    let (s0, mut n) = sig_mh_pair(DNA21, &hs, "");
+                    signature_free(s0);
+                    n.set_name(&t);
+                    n.set_filename(&t);
+                    buf = Some(format!("[{}]", sig_json(&n)).into_bytes());
+                }
                 "hi_bytes" => buf = Some((0x80u8..=0xff).cycle().take(300).collect()),
                 "nul_bytes" => buf = Some(vec![0u8; 300]),
                 "len1" => buf = Some(vec![b'[']),
@@ -2941,7 +3182,7 @@ unsafe fn call_sig(f: &str, cls: &str, r: &mut Rng) -> Option<Cmp> {
                     None => None,
                     Some(b) => Some(sourmash::encodings::HashFunctions::try_from(std::str::from_utf8(b)?)?),
                 };
-                if by_path && (cls == "missing" || cls == "bad_utf8") {
+                if by_path && (cls == "missing" || cls == "bad_utf8" || is_long(cls, "missing_")) {
                     return Err(SourmashError::Internal { message: "no file".into() });
                 }
                 Signature::load_signatures(&data[..], if ksize == 0 { None } else { Some(ksize) }, m, None)
@@ -3002,11 +3243,18 @@ unsafe fn call_zip(f: &str, cls: &str, _r: &mut Rng) -> Option<Cmp> {
                 q
             }
             "len1" => b"x".to_vec(),
+            _ if is_long(cls, "") || is_long(cls, "missing_") => {
+                let q = long_path(td.path(), cls, ".sbt.zip");
+                if is_long(cls, "") {
+                    std::fs::copy(&sbt, &q).unwrap();
+                }
+                q.into_os_string().into_encoded_bytes()
+            }
             _ => return Some(Cmp::Unknown),
         };
         let q = if p.is_empty() { dangling::<c_char>() } else { p.as_ptr() as *const c_char };
         let z = zipstorage_new(q, p.len());
-        let ok = if cls == "valid" || cls == "utf8" {
+        let ok = if cls == "valid" || cls == "utf8" || is_long(cls, "") {
             !z.is_null() && SourmashZipStorage::as_rust(z).path().map(|x| x.as_str().as_bytes().to_vec()) == Some(p.clone())
         } else {
             z.is_null()
@@ -3036,6 +3284,7 @@ unsafe fn call_zip(f: &str, cls: &str, _r: &mut Rng) -> Option<Cmp> {
                 "b80" => vec![0x61, 0x80],
                 "len1" => b"x".to_vec(),
                 "large" => vec![b'a'; 100_000],
+                _ if is_long(cls, "") => long_text(cls, b"no/such/entry/"),
                 _ => return Some(Cmp::Unknown),
             };
             let want = nat_ok(|| n.load(std::str::from_utf8(&p)?));
@@ -3062,6 +3311,7 @@ unsafe fn call_zip(f: &str, cls: &str, _r: &mut Rng) -> Option<Cmp> {
                 "b80" => vec![0x61, 0x80],
                 "len1" => b"x".to_vec(),
                 "large" => vec![b'a'; 100_000],
+                _ if is_long(cls, "") => long_text(cls, b"sub/dir/"),
                 _ => return Some(Cmp::Unknown),
             };
             if let Ok(t) = std::str::from_utf8(&p) {
@@ -3141,6 +3391,21 @@ unsafe fn call_rev(f: &str, cls: &str, r: &mut Rng) -> Option<Cmp> {
                 "missing" => vec![td.path().join("nope.sig").to_str().unwrap().to_string()],
                 "empty_paths" => vec![],
                 "garbage" => vec![format!("{}/short.fa", TD)],
+                _ if is_long(cls, "") || is_long(cls, "missing_") => {
+                    // the two files at the end of long paths / two long paths with nothing there
+                    let mut v = vec![];
+                    // (one missing path, like `missing`: with several, the panic is raised on a rayon worker
+                    // thread and recorded on THAT thread's channel - the documented one-thread assumption)
+                    let names: &[&str] = if is_long(cls, "") { &["47.fa.sig", "63.fa.sig"] } else { &["47.fa.sig"] };
+                    for name in names {
+                        let q = long_path(&td.path().join(&name[..2]), cls, ".sig");
+                        if is_long(cls, "") {
+                            std::fs::copy(format!("{}/{}", TD, name), &q).unwrap();
+                        }
+                        v.push(q.to_str().unwrap().to_string());
+                    }
+                    v
+                }
                 _ => return Some(Cmp::Unknown),
             };
             // the real files are k=21/31/51 scaled=1000 sketches
@@ -3266,9 +3531,12 @@ fn child(a: &Args) {
     let mut r = Rng::new(seed ^ 0xC20);
     unsafe {
         // C20_NOINIT=1 (debugging aid): keep the default panic hook so that the panic message is printed
-        if std::env::var_os("C20_NOINIT").is_none() {
+        // classes ending in `_noinit` run with the default panic hook (sourmash_init never called)
+        let noinit = cls.ends_with("_noinit");
+        if std::env::var_os("C20_NOINIT").is_none() && !noinit {
             sourmash_init();
         }
+        let cls = cls.strip_suffix("_noinit").unwrap_or(&cls).to_string();
         let cmp = run_call(&f, &cls, &mut r);
         let cmp = match cmp {
             Cmp::Unknown => {
